@@ -6,7 +6,7 @@
             (set_kvpair_element / remove_kvpair_element / _resolve_to_single_node, p[k] = v).
     Spec:   Repro/StructSpec.v (documents as lists of paragraphs as lists of fields; keys as masks;
             [s_cands]: the outcomes the property permits for an operation).
-    Proofs: Repro/StructProofs*.v, Repro/StructSortProofs.v.
+    Proofs: Repro/StructProofs*.v, Repro/StructSortProofs.v (stable sort for every key function).
 
     Notation used in the comments: [abs d] is the list view of a model document (every paragraph
     replaced by the list of its fields in _kvpair_order order); [dump d = sdump (abs d)]. *)
@@ -103,28 +103,69 @@ Qed.
 (** what the reference's moves do to a list: first/last/before/after/sort are permutations of the
     fields (as whole elements), *)
 Theorem C10_moves_permute :
-  forall m r after (fs : list field),
+  forall m r after sk (fs : list field),
     length m = length fs -> length r = length fs ->
     Permutation (mv_first m fs) fs /\ Permutation (mv_last m fs) fs
     /\ Permutation (mv_rel after m r fs) fs
-    /\ Permutation (sort_by (fun f => lower (f_name f)) fs) fs.
+    /\ Permutation (sort_fields_by sk fs) fs.
 Proof. exact moves_permute. Qed.
 
 (** ... and the moved fields ([pick]) and the others ([unpick]) are subsequences: their relative
     order is kept by construction. *)
 
-(** sort_fields: a stable sort by lower-cased name *)
+(** sort_fields(key=sk) is a STABLE sort by the key of the field name, for EVERY key function [sk]
+    of the family (Repro/StructSort.v: default = lower-cased name, len, constant, "X-" fields last,
+    first character, exact spelling; [field_key sk f] is the key of [f], [k_leb (keyfn_of sk)] is
+    Python's [<=] on the type of the keys: str, int or bool): the result is in key order, *)
 Theorem C10_sort_sorted :
-  forall fs : list field,
-    StronglySorted (fun x y => str_leb (lower (f_name x)) (lower (f_name y)) = true)
-                   (sort_by (fun f => lower (f_name f)) fs).
-Proof. exact (sort_by_sorted (fun f => lower (f_name f))). Qed.
+  forall sk (fs : list field),
+    StronglySorted (fun x y => k_leb (keyfn_of sk) (field_key sk x) (field_key sk y) = true)
+                   (sort_fields_by sk fs).
+Proof. exact sort_fields_by_sorted. Qed.
 
+(** ... and the fields whose key ties with that of any given field [g] ([key_tie]: neither key is
+    smaller) keep the relative order they had.  Under the default key only fields of the same name
+    (case-insensitively) tie; under the other keys fields of DIFFERENT names tie, and the
+    occurrences of a repeated field stay interleaved with them as they were. *)
 Theorem C10_sort_stable :
-  forall k (fs : list field),
-    filter (fun f => str_eqb (lower (f_name f)) k) (sort_by (fun f => lower (f_name f)) fs)
-    = filter (fun f => str_eqb (lower (f_name f)) k) fs.
-Proof. exact (sort_by_stable (fun f => lower (f_name f))). Qed.
+  forall sk g (fs : list field),
+    filter (key_tie sk g) (sort_fields_by sk fs) = filter (key_tie sk g) fs.
+Proof. exact sort_fields_by_stable. Qed.
+
+(** which fields tie, key by key *)
+Theorem C10_sort_ties :
+  forall f g : field,
+    key_tie KDefault f g = str_eqb (lower (f_name f)) (lower (f_name g))
+    /\ key_tie KLen f g = (N.of_nat (length (f_name f)) =? N.of_nat (length (f_name g)))%N
+    /\ key_tie KConst f g = true
+    /\ key_tie KXLast f g = Bool.eqb (startswith X_DASH (lower (f_name f))) (startswith X_DASH (lower (f_name g)))
+    /\ key_tie KFirstChar f g = str_eqb (lower (firstn 1 (f_name f))) (lower (firstn 1 (f_name g)))
+    /\ key_tie KExact f g = str_eqb (f_name f) (f_name g).
+Proof. exact key_tie_meaning. Qed.
+
+(** the statement as it was for the default key: for every lower-cased name the fields carrying it
+    come out in the order in which they went in *)
+Theorem C10_sort_default_stable :
+  forall n (fs : list field),
+    filter (fun f => str_eqb (lower (f_name f)) n) (sort_fields_by KDefault fs)
+    = filter (fun f => str_eqb (lower (f_name f)) n) fs.
+Proof. exact sort_default_stable. Qed.
+
+(** The three facts do not depend on the family: [sorted(xs, key=key)] ([sort_by]) is a stable sort
+    for ANY key function into ANY type whose [<=] is total and transitive ([ties leb key k y]: the
+    key of [y] and [k] tie). *)
+Theorem C10_sort_any_key :
+  forall (K : Type) (leb : K -> K -> bool) (key : field -> K),
+    (forall a b, leb a b = false -> leb b a = true) ->
+    (forall a b c, leb a b = true -> leb b c = true -> leb a c = true) ->
+    forall fs : list field,
+      Permutation (sort_by leb key fs) fs
+      /\ StronglySorted (fun x y => leb (key x) (key y) = true) (sort_by leb key fs)
+      /\ forall k, filter (ties leb key k) (sort_by leb key fs) = filter (ties leb key k) fs.
+Proof.
+  intros K leb key Htot Htr fs. split; [apply sort_by_perm|].
+  split; [exact (sort_by_sorted leb key Htot Htr fs)|]. intros k. exact (sort_by_stable leb key Htr k fs).
+Qed.
 
 (** * 3. reorder_errors_unchanged
 
@@ -248,7 +289,7 @@ Example C10_nonvacuous :
               SLast 0 (KIdx (s "A") 0);
               SAfter 0 (KStr (s "A")) (KIdx (s "a") 0);
               SBefore 0 (KIdx (s "a") 1) (KStr (s "x"));
-              SSort 0;
+              SSort 0 KDefault;
               SSet 0 (KIdx (s "A") 1) (s "new");
               SFirst 1 (KStr (s "C"));
               SAppend [(s "N", s "x")];
@@ -273,6 +314,44 @@ B: b
 
 N: x
 ".
+Proof. vm_compute. repeat split. Qed.
+
+(** sort_fields with keys under which different names tie, on both classes: a duplicate-fields
+    paragraph whose repeated field (Depends / depends) is interleaved with other fields and whose last
+    field is unterminated, after a no-duplicates paragraph.  "X-" fields last: Depends, A, depends keep
+    their order (a sort that grouped the occurrences of a name would give Depends, depends, A);
+    by length: X-B, A-B | X-Cc, Abcd keep theirs; a constant key moves nothing. *)
+Example C10_sort_keys_nonvacuous :
+  let s (x : String.string) := Lib.Dec.dec x in
+  let F c n r := mkF (s c) (s n) (s r) in
+  let d := [Para (from_kvpairs [F "" "X-Cc" ": 5
+"; F "" "X-B" ": 6
+"; F "" "Abcd" ": 7
+"; F "" "A-B" ": 8
+"]);
+            Other OWs [LF];
+            Para (from_kvpairs [F "" "X-B" ": 1
+"; F "" "Depends" ": 2
+"; F "# c
+" "A" ": 3
+"; F "" "depends" ": 4"])] in
+  wf_doc d = true
+  /\ ops_in_range d [SSort 1 KXLast; SSort 0 KLen; SSort 0 KConst; SSort 1 KFirstChar; SSort 0 KExact] = true
+  /\ dump (s_run d [SSort 1 KXLast; SSort 0 KLen; SSort 0 KConst])
+     = s "X-B: 6
+A-B: 8
+X-Cc: 5
+Abcd: 7
+
+Depends: 2
+# c
+A: 3
+depends: 4
+X-B: 1
+"
+  /\ dump (s_run d [SSort 1 KConst]) = (dump d ++ [LF])%list
+  /\ map (fun p => map f_name (para_fields p)) (paras (s_run d [SSort 1 KFirstChar; SSort 0 KExact]))
+     = [[s "A-B"; s "Abcd"; s "X-B"; s "X-Cc"]; [s "A"; s "Depends"; s "depends"; s "X-B"]].
 Proof. vm_compute. repeat split. Qed.
 
 (** the hypotheses are satisfiable, with and without a final newline, and the conclusion is what
@@ -333,6 +412,9 @@ Print Assumptions C10_structural_refines_list.
 Print Assumptions C10_moves_permute.
 Print Assumptions C10_sort_sorted.
 Print Assumptions C10_sort_stable.
+Print Assumptions C10_sort_ties.
+Print Assumptions C10_sort_default_stable.
+Print Assumptions C10_sort_any_key.
 Print Assumptions C10_reorder_errors_unchanged.
 Print Assumptions C10_newline_only_when_missing.
 Print Assumptions C10_newline_is_one_lf_at_the_end.
